@@ -34,7 +34,7 @@ def runBox {A V : Type} [DecidableEq A] (ops : List (IoOp A V)) (b : IoBox A V) 
 section Dict
 variable {κ β : Type} [DecidableEq κ]
 
-theorem alookup_upsert (m : List (κ × β)) (k k' : κ) (v : β) :
+theorem ms_alookup_upsert (m : List (κ × β)) (k k' : κ) (v : β) :
     alookup (upsert m k v) k' = if k' = k then some v else alookup m k' := by
   induction m with
   | nil => simp [upsert, alookup, eq_comm]
@@ -60,7 +60,7 @@ theorem keys_upsert (m : List (κ × β)) (k : κ) (v : β) :
       simp only [this, false_or]
       split <;> simp
 
-theorem alookup_isSome_iff (m : List (κ × β)) (k : κ) :
+theorem ms_alookup_isSome_iff (m : List (κ × β)) (k : κ) :
     (alookup m k).isSome ↔ k ∈ m.map (·.1) := by
   induction m with
   | nil => simp [alookup]
@@ -73,9 +73,9 @@ theorem alookup_isSome_iff (m : List (κ × β)) (k : κ) :
       have : ¬ k = a := fun h' => h h'.symm
       simp [ih, this]
 
-theorem alookup_eq_none_iff (m : List (κ × β)) (k : κ) :
+theorem ms_alookup_eq_none_iff (m : List (κ × β)) (k : κ) :
     alookup m k = none ↔ k ∉ m.map (·.1) := by
-  rw [← alookup_isSome_iff]; cases alookup m k <;> simp
+  rw [← ms_alookup_isSome_iff]; cases alookup m k <;> simp
 
 theorem alookup_eq_some_iff (m : List (κ × β)) (h : UniqueKeys m) (k : κ) (v : β) :
     alookup m k = some v ↔ (k, v) ∈ m := by
@@ -122,7 +122,7 @@ theorem alookup_applyWrites {A V : Type} [DecidableEq A] (m ws : List (A × V)) 
   | nil => simp [applyWrites, lastWrite]
   | cons w ws ih =>
     have : applyWrites m (w :: ws) = applyWrites (upsert m w.1 w.2) ws := rfl
-    rw [this, ih, lastWrite_cons, alookup_upsert]
+    rw [this, ih, lastWrite_cons, ms_alookup_upsert]
     cases lastWrite ws a with
     | some x => simp
     | none =>
@@ -226,7 +226,7 @@ theorem keys_aerase_sublist (m : List (κ × β)) (k : κ) :
 theorem UniqueKeys.aerase {m : List (κ × β)} (h : UniqueKeys m) (k : κ) : UniqueKeys (aerase m k) :=
   List.Nodup.sublist (keys_aerase_sublist m k) h
 
-theorem alookup_aerase (m : List (κ × β)) (h : UniqueKeys m) (k c : κ) :
+theorem ms_alookup_aerase (m : List (κ × β)) (h : UniqueKeys m) (k c : κ) :
     alookup (aerase m k) c = if c = k then none else alookup m c := by
   induction m with
   | nil => simp [aerase, alookup]
@@ -238,7 +238,7 @@ theorem alookup_aerase (m : List (κ × β)) (h : UniqueKeys m) (k c : κ) :
     · subst_vars
       simp only [alookup]
       by_cases hc : c = a
-      · subst hc; simp [(alookup_eq_none_iff t c).mpr h.1]
+      · subst hc; simp [(ms_alookup_eq_none_iff t c).mpr h.1]
       · have : ¬ a = c := fun h => hc h.symm
         simp [hc, this]
     · rename_i hne
@@ -267,8 +267,8 @@ theorem length_upsert (m : List (κ × β)) (k : κ) (v : β) :
   simp only [List.length_map] at this
   rw [this]
   by_cases hk : k ∈ m.map (·.1)
-  · simp [hk, (alookup_isSome_iff m k).mpr hk]
-  · have : ¬ (alookup m k).isSome = true := fun h => hk ((alookup_isSome_iff m k).mp h)
+  · simp [hk, (ms_alookup_isSome_iff m k).mpr hk]
+  · have : ¬ (alookup m k).isSome = true := fun h => hk ((ms_alookup_isSome_iff m k).mp h)
     simp [hk, this]
 
 end SchedL
@@ -358,7 +358,7 @@ theorem delWakeups_lookup' (w : Wakeups) (h : UniqueKeys w) (cs : List Comp) (c 
   | nil => simp [delWakeups]
   | cons k cs ih =>
     have : delWakeups w (k :: cs) = delWakeups (aerase w k) cs := rfl
-    rw [this, ih _ (h.aerase k), alookup_aerase w h]
+    rw [this, ih _ (h.aerase k), ms_alookup_aerase w h]
     by_cases h1 : c ∈ cs <;> by_cases h2 : c = k <;> simp [h1, h2]
 
 theorem nestedDue_spec' (w : Wakeups) (h : UniqueKeys w) (t : SimTime) (c : Comp) :
